@@ -23,7 +23,6 @@ has it) in the namespace of ONE module; nothing else in the process sees the fak
 not modelled raises `Unsupported` (the harness turns that into INCONCLUSIVE, never into a verdict).
 """
 import errno
-import io
 import itertools
 import os as _os
 import pathlib
